@@ -36,6 +36,18 @@ C = {
  "C08": ("Theorems (closed): (1) for ANY layer implementations, OverlayFS sends mutating calls only to layer 0 (a lower layer receives one only if it is the same instance as layer 0), for every reply the layers give; (2) by induction over arbitrary stackings (altroot, nested overlays, wrappers): observers issue no mutating base call, every call's mutating base calls go to the base filesystems under the write path. Correspondence: call logs of all layers, stat-only snapshots of lower layers before/after.",
          "Known finding D20: MemoryFS::open_file stamps atime below the trait boundary, so reading re-times a lower MemoryFS file (witness theorem C08_retimes_witness).",
          "Coq syntactic proof over program trees for all replies, structural induction over the stacking term + call-log oracle"),
+ "C09": ("Theorems (closed): for an overlay of two MemoryFS layers and EVERY pair of layer contents and every path, the path is served from the upper layer if present there, else from the lower one, unless its deletion marker is present, resolution changes neither layer, and existence in the overlay is existence in the union minus deleted paths. Correspondence: typed histories through 9 overlay stackings with densely pre-populated layers; from the implementation's first snapshot (the union it shows) every call is checked against the abstract contracts by an oracle independent of the model (create over lower-only entry => exists, remove_dir with lower children => non-empty, append continues lower bytes).",
+         "partial: the union rule is proved for two MemoryFS layers; that mutators obey C01's contracts relative to the union is decided by the contract oracle and the model correspondence. Known findings D15 (remove_file on a lower-layer directory, pinned by an existing test) and D13 (time setters on lower-only entries).",
+         "Coq symbolic execution of read_path/exists over arbitrary layer contents + model-independent contract oracle + differential correspondence"),
+ "C10": ("Theorems (closed, for ANY layers and any history): while the deletion marker of a path is present, exists is false and metadata/open_file/read_dir are not-found, whatever the layers contain; distinct paths have distinct markers; the bookkeeping directory is never in the root listing whatever the layers reply; a listed marker is subtracted from its directory's listing. Correspondence: removal-heavy histories with re-creation cycles of changing type, every tree compared with the contracts by the model-independent oracle; root listing and walk scanned for markers.",
+         "partial: that removal sets the marker and re-creation clears it is part of the model programs validated differentially. exists('/.whiteout') itself is still true (only listings hide the bookkeeping directory; hiding it in lookups would break nested overlays) - reserved names are outside C01's domain. Known finding D15.",
+         "Coq lemmas over arbitrary handlers/replies + contract oracle + differential correspondence"),
+ "C11": ("Theorems (closed): create_dir_all on a MemoryFS instance is exact for every path and well-formed state (succeeds when no file is in the way, all prefixes are directories afterwards, every other entry untouched, tree well formed); its loop is the fold of create_dir tolerating only DirectoryExists; every transfer reports failures on the path it was called on. Correspondence: composite-heavy histories on 15 configurations with names where children start with the parent's name, checked by the model-independent contract oracle (exact subtrees, copy_dir count, source untouched/gone, existing destination refused without side effects) and transfers between every ordered pair of six instances compared with a copy computed from the snapshots.",
+         "partial: remove_dir_all, copy/move (file and dir) are decided by the contract oracle and the model correspondence, not by a theorem.",
+         "Coq invariant proof for the create_dir_all loop + model-independent contract oracle over all instance pairs"),
+ "C12": ("Theorems (closed): for ANY filesystem below (all replies): every primitive (metadata, open/append/create_file, remove_*, read_dir, create_dir, set_*_time, is_file/is_dir) returns errors naming the call's path (or, for a parent that vanished mid-call, the parent), create_dir_all the failing ancestor, remove_dir_all and walk_dir items a descendant, transfers the call's path; the only unrelabelled call, exists, cannot fail on any stacking of the built-in backends (induction over the stacking term), so the placeholder never escapes; trailing-slash joins are invalid-path errors naming the argument; not-found / file-exists / directory-exists classification of the contracts. Correspondence: untyped histories with error kind and path compared exactly + oracle that every implementation error path lies in the caller's namespace.",
+         "exists of a custom failing filesystem below an adapter is outside the built-in stackings (placeholder would escape there).",
+         "Coq leaf-predicate proof over program trees (all replies) + induction over stackings + error-path oracle"),
  "C13": ("Theorems (closed): no lock section / trait call of the MemoryFS model, no call of the modelled OS, no EmbeddedFS call panics on any state and path; the MemoryFS reader returns Ok at every u64 position and buffer size and keeps its position in range under any seek script; join is total. Correspondence: catch_unwind around every call of untyped histories, root/odd-argument calls, handles after removal, hostile on-disk names (non-UTF-8, dangling symlink, loop), debug and release.",
          "partial: absence of panics in the adapters and VfsPath composites is decided by the differential runs (panic is an explicit model outcome, never observed), not yet by a theorem over all stackings; async port and EmbeddedFS harness pending.",
          "Coq case analysis per call + explicit Panic outcomes + catch_unwind differential runs in two build profiles"),
@@ -65,10 +77,10 @@ claimed = {c["property_id"] for c in checks}
 PENDING = {
  "_C01": "refinement theorem to the abstract tree under construction (model and correspondence exist; not registered until the theorem is pinned)",
  "C02": "MemoryFS/PhysicalFS bisimulation theorem under construction (both models run in lock-step in the harness already)",
- "C09": "overlay union-view theorem under construction",
- "C10": "whiteout persistence theorem under construction",
- "C11": "composite-operation exactness theorems under construction",
- "C12": "error-path theorem (leaf predicate over program trees) under construction",
+ "_C09": "overlay union-view theorem under construction",
+ "_C10": "whiteout persistence theorem under construction",
+ "_C11": "composite-operation exactness theorems under construction",
+ "_C12": "error-path theorem (leaf predicate over program trees) under construction",
  "C15": "async harness and the three hand-written async pieces not yet modelled",
  "_C16": "interleaved semantics and scheduler hooks not yet built",
  "_C17": "interleaved semantics and scheduler hooks not yet built",
